@@ -76,3 +76,690 @@ def check_C03(inp):
 
 
 CHECKS = {k[6:]: v for k, v in list(globals().items()) if k.startswith("check_")}
+
+
+# ============================================================================================
+# generic helpers over the three versions
+
+import itertools
+import json
+import random
+import re
+
+from spec import names as NM  # noqa: E402
+from spec import jsonschema as JS  # noqa: E402
+try:
+    from spec import v4 as S4  # noqa: E402
+except Exception:  # noqa
+    S4 = None
+
+
+def cls_of(ver):
+    L = lib()
+    return {"2": L.CVSS2, "3": L.CVSS3, "4": L.CVSS4}[ver]
+
+
+def spec_of(ver):
+    return {"2": S2, "3": S3, "4": S4}[ver]
+
+
+def split_vector(ver, vector):
+    """(prefix, [(metric, value)])"""
+    if ver == "2":
+        return "", [tuple(p.split(":")) for p in vector.split("/")]
+    parts = vector.split("/")
+    return parts[0] + "/", [tuple(p.split(":")) for p in parts[1:]]
+
+
+def nd_of(ver):
+    return "ND" if ver == "2" else "X"
+
+
+def spec_scores(ver, vector):
+    prefix, fields = split_vector(ver, vector)
+    o = dict(fields)
+    if ver == "2":
+        return tuple(fl(x) for x in S2.scores(o))
+    if ver == "3":
+        return tuple(fl(x) for x in S3.scores(int(prefix[7]), o))
+    return (fl(S4.score(o)),)
+
+
+def spec_severities(ver, vector):
+    prefix, fields = split_vector(ver, vector)
+    o = dict(fields)
+    if ver == "2":
+        return tuple(S2.severity(x) for x in S2.scores(o))
+    if ver == "3":
+        return tuple(S3.severity(x) for x in S3.scores(int(prefix[7]), o))
+    return (S3.severity(S4.score(o)),)
+
+
+def canon(ver, vector, output_prefix=True):
+    prefix, fields = split_vector(ver, vector)
+    o = dict(fields)
+    order = spec_of(ver).ORDER
+    nd = nd_of(ver)
+    body = "/".join("%s:%s" % (m, o[m]) for m in order if m in o and o[m] != nd)
+    return (prefix if output_prefix else "") + body
+
+
+def observe(c, ver):
+    """every output C05/C07/C18 talk about, as a comparable value"""
+    out = {
+        "scores": c.scores(),
+        "severities": c.severities(),
+        "clean": c.clean_vector(),
+        "rh": c.rh_vector(),
+        "hash_eq_self": (c == c, hash(c) == hash(c)),
+    }
+    if ver in ("2", "3"):
+        out["tv"] = c.temporal_vector()
+        out["ev"] = c.environmental_vector()
+    if ver in ("3", "4"):
+        out["clean_noprefix"] = c.clean_vector(output_prefix=False)
+    if ver == "4":
+        out["severity_attr"] = c.severity
+    return out
+
+
+def all_observe(c, ver):
+    out = observe(c, ver)
+    for s in (False, True):
+        for m in (False, True):
+            d = c.as_json(sort=s, minimal=m)
+            out["json_%s_%s" % (s, m)] = (list(d.items()), type(d).__name__)
+    return out
+
+
+def variants(ver, vector, rng, n=6):
+    """equivalent spellings: permuted fields, optional metrics added / removed as Not Defined"""
+    prefix, fields = split_vector(ver, vector)
+    sp = spec_of(ver)
+    nd = nd_of(ver)
+    present = dict(fields)
+    optional = [m for m in sp.ORDER if m not in sp.BASE]
+    out = []
+    for _ in range(n):
+        fs = [(m, v) for m, v in fields if not (v == nd and rng.random() < 0.5)]
+        for m in optional:
+            if m not in present and rng.random() < 0.4:
+                fs.append((m, nd))
+        rng.shuffle(fs)
+        out.append(prefix + "/".join("%s:%s" % f for f in fs))
+    return out
+
+
+# ---- C05 -------------------------------------------------------------------------------------
+def check_C05(inp):
+    ver, vector = inp["version"], inp["vector"]
+    C = cls_of(ver)
+    rng = random.Random(inp.get("seed", 0))
+    ref = C(vector)
+    want = observe(ref, ver)
+    for v in variants(ver, vector, rng):
+        c = C(v)
+        got = observe(c, ver)
+        if got != want:
+            diff = [k for k in want if got[k] != want[k]]
+            return "spelling %r differs from %r in %s: %r vs %r" % (v, vector, diff, got[diff[0]], want[diff[0]])
+        if not (c == ref and ref == c and hash(c) == hash(ref)):
+            return "spelling %r is not equal / hashes differently from %r" % (v, vector)
+    return None
+
+
+# ---- C06 -------------------------------------------------------------------------------------
+EQUIV = {
+    "2": {"E": "H", "RL": "U", "RC": "C", "CDP": "N", "TD": "H", "CR": "M", "IR": "M", "AR": "M"},
+    "3": {"E": "H", "RL": "U", "RC": "C", "CR": "M", "IR": "M", "AR": "M"},
+    "4": {"E": "A", "CR": "H", "IR": "H", "AR": "H"},
+}
+SUPPLEMENTAL4 = ["S", "AU", "R", "V", "RE", "U"]
+
+
+def defined_scores_equal(a, b):
+    return all(x == y for x, y in zip(a, b) if x is not None and y is not None)
+
+
+def check_C06(inp):
+    ver, vector = inp["version"], inp["vector"]
+    C = cls_of(ver)
+    sp = spec_of(ver)
+    nd = nd_of(ver)
+    prefix, fields = split_vector(ver, vector)
+    o = dict(fields)
+    base = C(vector).scores()
+
+    def build(d):
+        return prefix + "/".join("%s:%s" % (m, d[m]) for m in sp.ORDER if m in d)
+
+    # (a) a Not Defined modified metric set to its base value
+    if ver in ("3", "4"):
+        for m in sp.MODIFIED:
+            if o.get(m, "X") == "X":
+                d = dict(o)
+                d[m] = o[m[1:]]
+                s = C(build(d)).scores()
+                if s != base:
+                    return "(a) %s:X -> %s:%s changes scores %r -> %r" % (m, m, o[m[1:]], base, s)
+    # (b) a Not Defined metric set to the declared-equivalent value
+    for m, eq in EQUIV[ver].items():
+        if o.get(m, nd) == nd:
+            d = dict(o)
+            d[m] = eq
+            s = C(build(d)).scores()
+            if not defined_scores_equal(s, base):
+                return "(b) %s:%s -> %s:%s changes a defined score %r -> %r" % (m, nd, m, eq, base, s)
+    # (c) v4 supplemental metrics
+    if ver == "4":
+        for m in SUPPLEMENTAL4:
+            for val in sp.VALUES[m]:
+                d = dict(o)
+                d[m] = val
+                s = C(build(d)).scores()
+                if s != base:
+                    return "(c) supplemental %s:%s changes the score %r -> %r" % (m, val, base, s)
+            d = dict(o)
+            d.pop(m, None)
+            if C(build(d)).scores() != base:
+                return "(c) removing supplemental %s changes the score" % m
+    # (d) an overridden base metric does not matter for the v3 environmental / v4 score
+    if ver in ("3", "4"):
+        for m in sp.MODIFIED:
+            if o.get(m, "X") != "X":
+                bm = m[1:]
+                for val in sp.VALUES[bm]:
+                    d = dict(o)
+                    d[bm] = val
+                    s = C(build(d)).scores()
+                    if ver == "3" and s[2] != base[2]:
+                        return "(d) %s overridden by %s: base value %s changes env score %r -> %r" % (bm, m, val, base[2], s[2])
+                    if ver == "4" and s != base:
+                        return "(d) %s overridden by %s: base value %s changes score %r -> %r" % (bm, m, val, base, s)
+    # (e) temporal / environmental metrics never change the base score, nor env the temporal
+    if ver in ("2", "3"):
+        only_base = {m: o[m] for m in sp.BASE}
+        if C(build(only_base)).scores()[0] != base[0]:
+            return "(e) optional metrics change the base score"
+        bt = {m: o[m] for m in sp.BASE + sp.TEMPORAL if m in o}
+        st = C(build(bt)).scores()[1]
+        if st is not None and base[1] is not None and st != base[1]:
+            return "(e) environmental metrics change the temporal score %r -> %r" % (st, base[1])
+    return None
+
+
+# ---- C07 -------------------------------------------------------------------------------------
+def check_C07(inp):
+    ver, vector = inp["version"], inp["vector"]
+    C = cls_of(ver)
+    c = C(vector)
+    want = canon(ver, vector)
+    got = c.clean_vector()
+    if got != want:
+        return "clean_vector() = %r, canonical form = %r" % (got, want)
+    if ver != "2":
+        g2 = c.clean_vector(output_prefix=False)
+        if g2 != canon(ver, vector, False):
+            return "clean_vector(output_prefix=False) = %r" % (g2,)
+        if c.clean_vector() != want:
+            return "clean_vector() after clean_vector(output_prefix=False) = %r" % (c.clean_vector(),)
+    d = C(got)
+    if not (d == c and c == d and hash(d) == hash(c)):
+        return "re-parsed cleaned vector is not equal to the original object"
+    if d.scores() != c.scores() or d.clean_vector() != got or d.severities() != c.severities():
+        return "re-parsed cleaned vector has different scores / cleaned vector"
+    if c == vector or c == 1 or c == None:  # noqa: E711
+        return "object equals a value of another type"
+    # pairs: equality iff same version and same defined metrics
+    other = inp.get("other")
+    if other:
+        ov, ovec = other["version"], other["vector"]
+        e = cls_of(ov)(ovec)
+        same = ov == ver and canon(ov, ovec) == want
+        if (c == e) != same or (e == c) != same:
+            return "%r == %r is %r, expected %r" % (vector, ovec, c == e, same)
+        if same and hash(c) != hash(e):
+            return "equal objects hash differently"
+    return None
+
+
+# ---- C08 -------------------------------------------------------------------------------------
+def official_pattern(ver, vector=None):
+    if ver == "2":
+        return JS.load("2.0")["properties"]["vectorString"]["pattern"]
+    if ver == "4":
+        return JS.load("4.0")["properties"]["vectorString"]["pattern"]
+    minor = vector[7] if vector else "1"
+    return JS.load("3.%s" % minor)["properties"]["vectorString"]["pattern"]
+
+
+def check_C08(inp):
+    ver, vector = inp["version"], inp["vector"]
+    C = cls_of(ver)
+    c = C(vector)
+    seqs = [("clean_vector", lambda: c.clean_vector()), ("rh_vector", lambda: c.rh_vector().split("/", 1)[1])]
+    if ver != "2":
+        # the order of calls must not matter
+        c.clean_vector(output_prefix=False)
+    for name, f in seqs:
+        s = f()
+        try:
+            C(s)
+        except Exception as e:  # noqa
+            return "%s() = %r is rejected by the library's own parser: %s" % (name, s, type(e).__name__)
+        if re.search(official_pattern(ver, s), s) is None:
+            return "%s() = %r does not match the official vectorString pattern" % (name, s)
+    return None
+
+
+# ---- C09 -------------------------------------------------------------------------------------
+def one_decimal(x):
+    return isinstance(x, float) and 0.0 <= x <= 10.0 and repr(x) == "%.1f" % x and str(x)[0] != "-"
+
+
+def check_C09(inp):
+    ver, vector = inp["version"], inp["vector"]
+    C = cls_of(ver)
+    c = C(vector)
+    sc = c.scores()
+    sev = c.severities()
+    for i, x in enumerate(sc):
+        if x is None:
+            if not (ver == "2" and i > 0):
+                return "score %d is None" % i
+            continue
+        if not one_decimal(x):
+            return "score %r is not a one-decimal float in [0, 10]" % (x,)
+    want = spec_severities(ver, vector)
+    exp_from_reported = []
+    for x in sc:
+        if ver == "2":
+            exp_from_reported.append(S2.severity(None if x is None else F(repr(x))))
+        else:
+            exp_from_reported.append(S3.severity(F(repr(x))))
+    if tuple(sev) != tuple(exp_from_reported):
+        return "severities() = %r but the official scale gives %r for scores %r" % (sev, tuple(exp_from_reported), sc)
+    if ver == "4" and c.severity != sev[0]:
+        return "severity attribute %r != severities()[0] %r" % (c.severity, sev[0])
+    d = c.as_json()
+    keys = ["baseSeverity", "temporalSeverity", "environmentalSeverity"]
+    if ver in ("3", "4"):
+        for k, s in zip(keys, sev):
+            if k in d and str(d[k]).upper() != s.upper():
+                return "JSON %s = %r disagrees with severities() %r" % (k, d[k], s)
+    rh = c.rh_vector().split("/", 1)[0]
+    if rh != "%.1f" % sc[0]:
+        return "rh_vector prints the score as %r" % rh
+    return None
+
+
+# ---- C10 -------------------------------------------------------------------------------------
+def schema_version(ver, vector):
+    return {"2": "2.0", "4": "4.0"}.get(ver) or "3.%s" % vector[7]
+
+
+def check_C10(inp):
+    ver, vector = inp["version"], inp["vector"]
+    C = cls_of(ver)
+    c = C(vector)
+    root = JS.load(schema_version(ver, vector))
+    skip_known = inp.get("skip_fragments", [])
+    for s in (False, True):
+        for m in (False, True):
+            doc = json.loads(json.dumps(c.as_json(sort=s, minimal=m)))
+            if not isinstance(doc, dict):
+                return "as_json does not produce a JSON object"
+            for k in root.get("required", []):
+                if k not in doc:
+                    return "sort=%s minimal=%s: required field %s missing" % (s, m, k)
+            for name, props, frag in JS.fragments(root):
+                if name in skip_known:
+                    continue
+                sub = {p: doc[p] for p in props if p in doc}
+                if not JS.valid(root, frag, sub):
+                    return "sort=%s minimal=%s: schema fragment %s violated by %r" % (s, m, name, sub)
+    return None
+
+
+# ---- C11 -------------------------------------------------------------------------------------
+def json_keys(ver):
+    return {"2": NM.V2_KEYS, "3": NM.V3_KEYS, "4": NM.V4_KEYS}[ver]
+
+
+def json_values(ver):
+    return {"2": NM.V2_VALUES, "3": NM.V3_VALUES, "4": NM.V4_VALUES}[ver]
+
+
+def effective(ver, o):
+    sp = spec_of(ver)
+    nd = nd_of(ver)
+    e = {}
+    for m in sp.ORDER:
+        v = o.get(m, nd)
+        if ver in ("3", "4") and m in sp.MODIFIED and v == "X":
+            v = o[m[1:]]
+        e[m] = v
+    return e
+
+
+def check_C11(inp):
+    ver, vector = inp["version"], inp["vector"]
+    C = cls_of(ver)
+    c = C(vector)
+    prefix, fields = split_vector(ver, vector)
+    o = dict(fields)
+    sp = spec_of(ver)
+    nd = nd_of(ver)
+    e = effective(ver, o)
+    keys, vals = json_keys(ver), json_values(ver)
+    scores = c.scores()
+    sevs = c.severities()
+    groups = []
+    if ver in ("2", "3"):
+        groups = [("temporal", sp.TEMPORAL, 1), ("environmental", sp.ENVIRONMENTAL, 2)]
+    ref = None
+    for s in (False, True):
+        for m in (False, True):
+            d = c.as_json(sort=s, minimal=m)
+            tag = "sort=%s minimal=%s: " % (s, m)
+            if d.get("vectorString") != vector:
+                return tag + "vectorString = %r" % (d.get("vectorString"),)
+            want_version = {"2": "2.0", "4": "4.0"}.get(ver) or "3.%s" % prefix[7]
+            if d.get("version") != want_version:
+                return tag + "version = %r" % (d.get("version"),)
+            if d.get("baseScore") != scores[0]:
+                return tag + "baseScore = %r, scores()[0] = %r" % (d.get("baseScore"), scores[0])
+            if ver != "2" and str(d.get("baseSeverity")).upper() != sevs[0].upper():
+                return tag + "baseSeverity = %r" % (d.get("baseSeverity"),)
+            for mt in sp.BASE:
+                if d.get(keys[mt]) != vals[mt][e[mt]]:
+                    return tag + "%s = %r, effective value %s:%s" % (keys[mt], d.get(keys[mt]), mt, e[mt])
+            if ver == "4":
+                for mt in sp.ORDER:
+                    if d.get(keys[mt]) != vals[mt][e[mt]]:
+                        return tag + "%s = %r, effective value %s:%s" % (keys[mt], d.get(keys[mt]), mt, e[mt])
+            for gname, metrics, idx in groups:
+                present = [keys[mt] in d for mt in metrics] + [gname + "Score" in d]
+                if ver == "3":
+                    present.append(gname + "Severity" in d)
+                if any(present) != all(present):
+                    return tag + "%s group is partially present" % gname
+                defined = any(o.get(mt, nd) != nd for mt in metrics)
+                if not all(present):
+                    if not m:
+                        return tag + "%s group missing although minimal is off" % gname
+                    if defined:
+                        return tag + "%s group dropped although %s defines a value" % (gname, [mt for mt in metrics if o.get(mt, nd) != nd])
+                    continue
+                for mt in metrics:
+                    if d[keys[mt]] != vals[mt][e[mt]]:
+                        return tag + "%s = %r, effective value %s:%s" % (keys[mt], d[keys[mt]], mt, e[mt])
+                if scores[idx] is not None and d[gname + "Score"] != scores[idx]:
+                    return tag + "%sScore = %r, score = %r" % (gname, d[gname + "Score"], scores[idx])
+                if ver == "3" and str(d[gname + "Severity"]).upper() != sevs[idx].upper():
+                    return tag + "%sSeverity = %r, rating = %r" % (gname, d[gname + "Severity"], sevs[idx])
+            if s and list(d.keys()) != sorted(d.keys()):
+                return tag + "keys are not ascending"
+            if m is False:
+                if ref is None:
+                    ref = dict(d)
+                elif dict(d) != ref:
+                    return tag + "sort changes the content"
+    # another object with an equivalent spelling must report its own input string
+    rng = random.Random(3)
+    for v2_ in variants(ver, vector, rng, 2):
+        d2 = C(v2_).as_json()
+        if d2.get("vectorString") != v2_:
+            return "as_json() of %r reports vectorString %r" % (v2_, d2.get("vectorString"))
+    return None
+
+
+# ---- C12 -------------------------------------------------------------------------------------
+def check_C12(inp):
+    ver, vector = inp["version"], inp["vector"]
+    C = cls_of(ver)
+    L = lib()
+    ex = L.exceptions if hasattr(L, "exceptions") else __import__("cvss.exceptions").exceptions
+    c = C(vector)
+    base = c.scores()[0]
+    rh = c.rh_vector()
+    if rh != "%.1f/%s" % (base, canon(ver, vector)):
+        return "rh_vector() = %r" % rh
+    back = C.from_rh_vector(rh)
+    if not (back == c and back.scores() == c.scores()):
+        return "from_rh_vector(rh_vector()) is not equal to the object"
+    RHM = getattr(ex, "CVSS%sRHMalformedError" % ver)
+    RHS = getattr(ex, "CVSS%sRHScoreDoesNotMatch" % ver)
+    MAL = getattr(ex, "CVSS%sMalformedError" % ver)
+    # numerically equal spellings are accepted, anything else is a mismatch
+    for text, ok in (("%.1f" % base, True), ("%.2f" % base, True), (" %s " % base, True),
+                     ("%.7f" % (base + 4e-7), False), ("%.1f" % ((base + 0.1) if base < 10 else base - 0.1), False),
+                     ("%s" % (base + 1e-9), False), ("nan", False), ("inf", False)):
+        try:
+            C.from_rh_vector(text + "/" + vector)
+            got = True
+        except RHS:
+            got = False
+        except Exception as e:  # noqa
+            return "from_rh_vector(%r/...) raises %s" % (text, type(e).__name__)
+        if got != ok:
+            return "from_rh_vector(%r/<vector with score %s>) %s" % (text, base, "accepted" if got else "rejected")
+    for bad in ("", "x", "1.0.0", "0x10"):
+        try:
+            C.from_rh_vector(bad + "/" + vector)
+            return "from_rh_vector accepts the non-numeric score %r" % bad
+        except RHM:
+            pass
+        except Exception as e:  # noqa
+            return "from_rh_vector(%r/...) raises %s instead of the RH-malformed error" % (bad, type(e).__name__)
+    try:
+        C.from_rh_vector(vector.replace("/", ""))
+        return "from_rh_vector accepts a string without '/'"
+    except (RHM,):
+        pass
+    except Exception as e:  # noqa
+        return "from_rh_vector(no slash) raises %s" % type(e).__name__
+    try:
+        C.from_rh_vector("%.1f/%s/ZZ:Q" % (base, vector))
+        return "from_rh_vector accepts an invalid vector part"
+    except MAL:
+        pass
+    except Exception as e:  # noqa
+        return "invalid vector part raises %s" % type(e).__name__
+    return None
+
+
+# ---- C15 -------------------------------------------------------------------------------------
+def check_C15(inp):
+    ver, vector = inp["version"], inp["vector"]
+    if ver not in ("2", "3"):
+        return None
+    C = cls_of(ver)
+    c = C(vector)
+    sp = spec_of(ver)
+    prefix, fields = split_vector(ver, vector)
+    o = dict(fields)
+    e = effective(ver, o)
+    want_t = "/".join("%s:%s" % (m, e[m]) for m in sp.TEMPORAL)
+    want_e = "/".join("%s:%s" % (m, e[m]) for m in sp.ENVIRONMENTAL)
+    if c.temporal_vector() != want_t:
+        return "temporal_vector() = %r, expected %r" % (c.temporal_vector(), want_t)
+    if c.environmental_vector() != want_e:
+        return "environmental_vector() = %r, expected %r" % (c.environmental_vector(), want_e)
+    basev = prefix + "/".join("%s:%s" % (m, o[m]) for m in sp.BASE)
+    full = basev + "/" + c.temporal_vector() + "/" + c.environmental_vector()
+    if C(full).scores() != c.scores():
+        return "re-assembled vector %r scores %r, original %r" % (full, C(full).scores(), c.scores())
+    return None
+
+
+# ---- C18 -------------------------------------------------------------------------------------
+def check_C18(inp):
+    import copy
+
+    ver, vector = inp["version"], inp["vector"]
+    C = cls_of(ver)
+    rng = random.Random(inp.get("seed", 0))
+    ref = all_observe(C(vector), ver)
+    c = C(vector)
+    names = ["scores", "severities", "clean", "rh", "eq", "hash", "json", "json_min", "json_sort", "clean_np", "tv", "ev"]
+    for _ in range(3):
+        rng.shuffle(names)
+        for n in names + names:
+            if n == "scores":
+                c.scores()
+            elif n == "severities":
+                c.severities()
+            elif n == "clean":
+                c.clean_vector()
+            elif n == "clean_np" and ver != "2":
+                c.clean_vector(output_prefix=False)
+            elif n == "rh":
+                c.rh_vector()
+            elif n == "eq":
+                c == C(vector)  # noqa
+            elif n == "hash":
+                hash(c)
+            elif n.startswith("json"):
+                d = c.as_json(sort=(n == "json_sort"), minimal=(n == "json_min"))
+                d["baseScore"] = "clobbered"
+                d["vectorString"] = None
+                d.pop("version", None)
+                d["extra"] = 1
+            elif n == "tv" and ver != "4":
+                c.temporal_vector()
+            elif n == "ev" and ver != "4":
+                c.environmental_vector()
+        got = all_observe(c, ver)
+        if got != ref:
+            diff = [k for k in ref if got.get(k) != ref[k]]
+            return "after a sequence of accessor calls %s changed: %r != %r" % (diff[0], got[diff[0]], ref[diff[0]])
+        if not (c == C(vector) and hash(c) == hash(C(vector))):
+            return "object no longer equal to a fresh object from the same vector"
+    return None
+
+
+# ---- C19 -------------------------------------------------------------------------------------
+def snapshot_globals():
+    import copy
+    import decimal
+    import sys as _sys
+    import warnings
+
+    L = lib()
+    snap = {}
+    for name, mod in list(_sys.modules.items()):
+        if name == "cvss" or name.startswith("cvss."):
+            d = {}
+            for k, v in vars(mod).items():
+                if k.startswith("__") or callable(v) or isinstance(v, type(_sys)) or type(v).__name__ == "_Feature":
+                    continue
+                try:
+                    d[k] = copy.deepcopy(v)
+                except Exception:  # noqa
+                    d[k] = repr(v)
+            snap[name] = d
+    ctx = decimal.getcontext()
+    snap["decimal"] = (ctx.prec, ctx.rounding, ctx.Emin, ctx.Emax, dict(ctx.traps))
+    snap["path"] = list(_sys.path)
+    snap["warnings"] = list(warnings.filters)
+    for name, mod in list(_sys.modules.items()):
+        if name == "cvss" or name.startswith("cvss."):
+            for k, v in vars(mod).items():
+                if isinstance(v, type) and v.__module__ == name:
+                    snap[name + "." + k] = {a: repr(b) for a, b in vars(v).items() if not callable(b) and not a.startswith("__")}
+    return snap
+
+
+def check_C19(inp):
+    import contextlib
+    import decimal
+    import io
+
+    ver, vector = inp["version"], inp["vector"]
+    C = cls_of(ver)
+    L = lib()
+    before = snapshot_globals()
+    buf_o, buf_e = io.StringIO(), io.StringIO()
+    with contextlib.redirect_stdout(buf_o), contextlib.redirect_stderr(buf_e):
+        ref = all_observe(C(vector), ver)
+        # history: other constructions, failures, serialisations, then the probe again
+        rng = random.Random(inp.get("seed", 0))
+        for h in inp.get("history", []):
+            try:
+                x = cls_of(h["version"])(h["vector"])
+                x.scores(), x.as_json(minimal=True), x.clean_vector(), hash(x)
+            except Exception:  # noqa
+                pass
+        again = all_observe(C(vector), ver)
+        if again != ref:
+            diff = [k for k in ref if again.get(k) != ref[k]]
+            return "after a history of other calls %s differs: %r != %r" % (diff[0], again[diff[0]], ref[diff[0]])
+        for rounding in (decimal.ROUND_FLOOR, decimal.ROUND_CEILING, decimal.ROUND_DOWN, decimal.ROUND_UP,
+                         decimal.ROUND_HALF_DOWN, decimal.ROUND_HALF_EVEN, decimal.ROUND_HALF_UP, decimal.ROUND_05UP):
+            for prec in (28, 34, 60):
+                with decimal.localcontext() as ctx:
+                    ctx.rounding = rounding
+                    ctx.prec = prec
+                    got = all_observe(C(vector), ver)
+                if got != ref:
+                    diff = [k for k in ref if got.get(k) != ref[k]]
+                    return "under decimal context rounding=%s prec=%d %s differs: %r != %r" % (rounding, prec, diff[0], got[diff[0]], ref[diff[0]])
+    if buf_o.getvalue() or buf_e.getvalue():
+        return "the library wrote to stdout/stderr: %r" % ((buf_o.getvalue() + buf_e.getvalue())[:100],)
+    after = snapshot_globals()
+    if after != before:
+        diff = [k for k in before if after.get(k) != before[k]] + [k for k in after if k not in before]
+        return "process-global state changed: %s" % diff[:3]
+    return None
+
+
+CHECKS = {k[6:]: v for k, v in list(globals().items()) if k.startswith("check_")}
+
+
+def check_C04(inp):
+    """acceptance is exactly the grammar; taxonomy of errors; nothing foreign escapes"""
+    ver, s = inp["version"], inp["vector"]
+    C = cls_of(ver)
+    L = lib()
+    import cvss.exceptions as ex
+
+    sp = spec_of(ver)
+    prefixes = {"2": [""], "3": ["CVSS:3.0/", "CVSS:3.1/"], "4": ["CVSS:4.0/"]}[ver]
+    syn = False
+    mand = False
+    for p in prefixes:
+        if s.startswith(p) and (p or True):
+            body = s[len(p):]
+            fields = body.split("/")
+            ok = True
+            seen = set()
+            for f in fields:
+                parts = f.split(":")
+                if len(parts) != 2 or parts[0] not in sp.VALUES or parts[1] not in sp.VALUES[parts[0]] or parts[0] in seen:
+                    ok = False
+                    break
+                seen.add(parts[0])
+            if ok:
+                syn = True
+                mand = all(m in seen for m in sp.BASE)
+    MAL = getattr(ex, "CVSS%sMalformedError" % ver)
+    MAN = getattr(ex, "CVSS%sMandatoryError" % ver)
+    try:
+        C(s)
+        outcome = "ok"
+    except MAL:
+        outcome = "malformed"
+    except MAN:
+        outcome = "mandatory"
+    except ex.CVSSError as e:
+        return "constructor raised %s for %r" % (type(e).__name__, s)
+    except BaseException as e:  # noqa
+        return "%s escapes the constructor for %r: %s" % (type(e).__name__, s, e)
+    want = "ok" if (syn and mand) else ("mandatory" if syn else "malformed")
+    if outcome != want:
+        return "%r: outcome %s, grammar says %s" % (s, outcome, want)
+    return None
+
+
+CHECKS = {k[6:]: v for k, v in list(globals().items()) if k.startswith("check_")}
